@@ -20,7 +20,18 @@ use cbh_storage::{LocalStorage, Storage, StorageError, verif};
 use vrt::sched::{Exec, Outcome, Strategy};
 use vrt::{Rng, Tracer, Value, json};
 
-const KEY: &str = "d/k.json";
+/// The key every scenario works on: nested ("d/k.json", the default) or directly under the store root ("top.json",
+/// with H_STORE_KEY=root) - temporary files of a root-level key live in the root itself.
+fn key() -> &'static str {
+    if root_key() { "top.json" } else { "d/k.json" }
+}
+fn list_prefix() -> &'static str {
+    if root_key() { "" } else { "d/" }
+}
+fn root_key() -> bool {
+    static R: std::sync::OnceLock<bool> = std::sync::OnceLock::new();
+    *R.get_or_init(|| env::var("H_STORE_KEY").map(|v| v == "root").unwrap_or(false))
+}
 const OLD: u32 = 9;
 const UNKNOWN: u32 = 99_999;
 const INSPECTOR: u32 = 6;
@@ -56,6 +67,7 @@ fn payload(obj: u32, class: &str, seed: u64) -> Vec<u8> {
         // a complete, valid stream of the codec as the payload (a double decode would change it)
         "gzfull" => cbh_codec::compress(&random(&mut rng, 100)),
         "big" => random(&mut rng, 4 << 20),
+        "huge" => random(&mut rng, 24 << 20),
         _ => random(&mut rng, 64 + obj as usize),
     }
 }
@@ -150,26 +162,26 @@ impl Drop for Sandbox {
 fn run_op(st: &LocalStorage, kind: &str, bytes: &[u8], table: &[(u32, Vec<u8>)]) -> (&'static str, u32, u64) {
     let rt = rt();
     match kind {
-        "put" => match rt.block_on(st.put(KEY, bytes)) {
+        "put" => match rt.block_on(st.put(key(), bytes)) {
             Ok(()) => ("ok", 0, 0),
             Err(e) => (mon(classify(&e)), 0, 0),
         },
-        "puto" => match rt.block_on(st.put_overwrite(KEY, bytes)) {
+        "puto" => match rt.block_on(st.put_overwrite(key(), bytes)) {
             Ok(()) => ("ok", 0, 0),
             Err(e) => (mon(classify(&e)), 0, 0),
         },
-        "del" => match rt.block_on(st.delete(KEY)) {
+        "del" => match rt.block_on(st.delete(key())) {
             Ok(()) => ("ok", 0, 0),
             Err(e) => (mon(classify(&e)), 0, 0),
         },
-        "get" => match rt.block_on(st.get(KEY)) {
+        "get" => match rt.block_on(st.get(key())) {
             Ok(b) => ("ok", which(&b, table), 0),
             Err(e) => (mon(classify(&e)), 0, 0),
         },
-        "list" => match rt.block_on(st.list("d/")) {
+        "list" => match rt.block_on(st.list(list_prefix())) {
             Ok(names) => {
-                let key = u32::from(names.iter().any(|n| n == KEY));
-                ("ok", key, names.iter().filter(|n| *n != KEY).count() as u64)
+                let listed = u32::from(names.iter().any(|n| n == key()));
+                ("ok", listed, names.iter().filter(|n| *n != key()).count() as u64)
             }
             Err(e) => (mon(classify(&e)), 0, 0),
         },
@@ -186,8 +198,8 @@ fn inspect_events(st: &LocalStorage, table: &[(u32, Vec<u8>)], out: &mut Vec<Val
     // a listing of the whole store must not show anything but the key either
     let all = rt().block_on(st.list("")).unwrap_or_default();
     out.push(json!({"ev":"inv","t":INSPECTOR,"kind":"list","obj":0}));
-    out.push(json!({"ev":"res","t":INSPECTOR,"r":"ok","obj":u32::from(all.iter().any(|n| n == KEY)),
-                    "junk":all.iter().filter(|n| *n != KEY).count()}));
+    out.push(json!({"ev":"res","t":INSPECTOR,"r":"ok","obj":u32::from(all.iter().any(|n| n == key())),
+                    "junk":all.iter().filter(|n| *n != key()).count()}));
 }
 
 // ------------------------------------------------------------------------------------------ stepped threads
@@ -242,7 +254,7 @@ fn run_scenario(work: &Path, name: &str, sc: Scenario, seed: u64, extra: Value) 
     }
     let init_val = match sc.init.as_str() {
         "old" => {
-            rt().block_on(st.put(KEY, &table[0].1)).expect("seeding the old object");
+            rt().block_on(st.put(key(), &table[0].1)).expect("seeding the old object");
             OLD
         }
         "emptydir" => {
@@ -446,7 +458,7 @@ fn cmd_crash(cases: &str, out: &str, work: &str) {
             let st = verif::local_storage(sb.root.clone());
             let init_val = match init {
                 "old" => {
-                    rt().block_on(st.put(KEY, &payload(OLD, "small", seed))).expect("seed old");
+                    rt().block_on(st.put(key(), &payload(OLD, "small", seed))).expect("seed old");
                     OLD
                 }
                 "emptydir" => {
@@ -495,6 +507,73 @@ fn cmd_crash(cases: &str, out: &str, work: &str) {
         }
     }
     println!("{}", json!({"scenarios":n,"not_crashed":not_crashed}));
+}
+
+// ------------------------------------------------------------------------------------------ free-running readers
+
+/// A writer stores a large incompressible object (first put, or overwrite of an old object) while free-running readers
+/// keep calling get / list on the same key. No hook is involved: whatever the write path looks like, a reader must see
+/// nothing, the old or the complete new object, and never a temporary name. Records are appended under one mutex at
+/// invocation and at response, so their order is consistent with real time.
+fn cmd_race(out: &str, work: &str, rounds: usize) {
+    use std::sync::atomic::{AtomicBool, Ordering};
+    use std::sync::{Arc, Mutex};
+    let tr = Tracer::create(out);
+    let work = PathBuf::from(work);
+    let seed = vrt::seed_from_env();
+    for round in 0..rounds {
+        let over = round % 2 == 1;
+        let sb = Sandbox::new(&work, &format!("race{round}"));
+        let st0 = verif::local_storage(sb.root.clone());
+        let old = payload(OLD, "small", seed);
+        let newb = payload(11, "huge", seed.wrapping_add(round as u64));
+        if over {
+            rt().block_on(st0.put(key(), &old)).expect("seed old");
+        }
+        let table = Arc::new(vec![(OLD, old), (11, newb)]);
+        let log: Arc<Mutex<Vec<Value>>> = Arc::new(Mutex::new(vec![json!({"ev":"reset","init": if over { OLD } else { 0 },"class":"race","round":round,"over":over})]));
+        let done = Arc::new(AtomicBool::new(false));
+        let mut hs = vec![];
+        for t in 2..=3u32 {
+            let (root, table, log, done) = (sb.root.clone(), table.clone(), log.clone(), done.clone());
+            hs.push(std::thread::spawn(move || {
+                let st = verif::local_storage(root);
+                let mut after = 0;
+                let mut n = 0u32;
+                while after < 2 && n < 500 {
+                    std::thread::sleep(std::time::Duration::from_micros(1500));
+                    if done.load(Ordering::SeqCst) {
+                        after += 1;
+                    }
+                    let kind = if t == 3 && n % 3 == 2 { "list" } else { "get" };
+                    log.lock().unwrap().push(json!({"ev":"inv","t":t,"kind":kind,"obj":0}));
+                    let (r, o, junk) = run_op(&st, kind, &[], &table);
+                    log.lock().unwrap().push(json!({"ev":"res","t":t,"r":r,"obj":o,"junk":junk}));
+                    n += 1;
+                }
+            }));
+        }
+        std::thread::sleep(std::time::Duration::from_millis(3));
+        let kind = if over { "puto" } else { "put" };
+        log.lock().unwrap().push(json!({"ev":"inv","t":1,"kind":kind,"obj":11}));
+        let (r, o, junk) = run_op(&st0, kind, &table[1].1, &table);
+        log.lock().unwrap().push(json!({"ev":"res","t":1,"r":r,"obj":o,"junk":junk}));
+        done.store(true, Ordering::SeqCst);
+        for h in hs {
+            let _ = h.join();
+        }
+        for v in log.lock().unwrap().iter() {
+            tr.emit(v);
+        }
+        let mut evs = vec![];
+        inspect_events(&st0, &table, &mut evs);
+        for e in &evs {
+            tr.emit(e);
+        }
+        let (files, temps, outside) = sb.survey();
+        tr.emit(&json!({"ev":"tree","files":files,"temps":temps,"outside":outside,"crashes":0}));
+    }
+    println!("{}", json!({"scenarios":rounds}));
 }
 
 // ------------------------------------------------------------------------------------------ round trips
@@ -607,6 +686,7 @@ fn main() {
         Some("random") => cmd_random(&a[2], &a[3], a[4].parse().unwrap()),
         Some("crash") => cmd_crash(&a[2], &a[3], &a[4]),
         Some("rt") => cmd_rt(&a[2], &a[3]),
+        Some("race") => cmd_race(&a[2], &a[3], a[4].parse().unwrap()),
         Some("keys") => cmd_keys(&a[2], &a[3], &a[4]),
         Some("child-op") => cmd_child_op(&a[2], &a[3], a[4].parse().unwrap(), &a[5], a[6].parse().unwrap()),
         Some("inspect") => cmd_inspect(&a[2], a[3].parse().unwrap(), a[4].parse().unwrap(), &a[5]),
